@@ -1,7 +1,6 @@
 package c16
 
 import (
-	"sync"
 	"bytes"
 	"context"
 	"database/sql/driver"
@@ -9,6 +8,7 @@ import (
 	"fmt"
 	"math/rand"
 	"net/url"
+	"sync"
 	"time"
 
 	rmodel "github.com/metrico/qryn/reader/model"
@@ -73,6 +73,8 @@ type member struct {
 	pd    *wmodel.ProfileData
 	types []string // "type:unit"
 	proto string
+	// multiLine: rendered with inlined (multi-line) locations
+	multiLine bool
 }
 
 func typeNames(pc *gen.ProfCase) []string {
